@@ -8,6 +8,7 @@ pub fn main(mode: &str, args: &[String]) -> i32 {
         "c11" => c11(args),
         "tr" => test_runner(args),
         "c12" => c12(args),
+        "hist" => hist(args),
         other => {
             eprintln!("vworker: unknown mode {other:?}");
             2
@@ -185,5 +186,39 @@ fn c12(args: &[String]) -> i32 {
     let side = root.join("side");
     let r = if args[1] == "struct" { c01::apply_ops(&bc, &c01::history_from_json(&ops), &names, &side) } else { c02::apply_ops_named(&bc, &c02::history_from_json(&ops), &side, &names) };
     println!("{}", serde_json::json!({"ok": r.is_ok(), "err": r.err()}));
+    0
+}
+
+/// History server for C01 / C02: args = [c01|c02, number of names, scratch dir]; one history (JSON) per stdin line, one
+/// outcome (JSON) per stdout line. Runs on the main thread, so runaway recursion in the code under test kills only this process.
+fn hist(args: &[String]) -> i32 {
+    use crate::props::{c01, c02};
+    use std::io::{BufRead, Write};
+    let n: usize = args[1].parse().unwrap_or(3);
+    let scratch = std::path::PathBuf::from(&args[2]);
+    let stdin = std::io::stdin();
+    let mut out = std::io::stdout();
+    for line in stdin.lock().lines() {
+        let Ok(line) = line else { break };
+        let v: Value = match serde_json::from_str(&line) {
+            Ok(v) => v,
+            Err(e) => {
+                let _ = writeln!(out, "{}", serde_json::json!({"fail": {"sig": "harness:bad-history-json", "msg": e.to_string()}}));
+                continue;
+            }
+        };
+        let (steps, nontrivial, classes, fail) = if args[0] == "c01" {
+            let names: Vec<&str> = if n == 2 { vec![c01::NAMES[0], c01::NAMES[1]] } else { c01::NAMES[..n.min(5)].to_vec() };
+            let o = c01::run_history(&scratch, &c01::history_from_json(&v), &names);
+            (o.steps, o.nontrivial, o.classes, o.fail)
+        } else {
+            let o = c02::run_history(&scratch, &c02::history_from_json(&v));
+            (o.steps, o.nontrivial, o.classes, o.fail)
+        };
+        let reply = serde_json::json!({"steps": steps, "nontrivial": nontrivial, "classes": classes, "fail": fail.map(|f| serde_json::json!({"sig": f.sig, "msg": f.msg}))});
+        if writeln!(out, "{reply}").and_then(|_| out.flush()).is_err() {
+            break;
+        }
+    }
     0
 }
